@@ -87,7 +87,10 @@ def merge(reports):
             if r is None or "evaluations" not in r:
                 continue
         m["evaluations"] += r["evaluations"]
-        m["nontrivial"].update(r["nontrivial"])
+        if r["nontrivial"] or not r.get("nontrivial_count"):
+            m["nontrivial"].update(r["nontrivial"])
+        else:
+            m["nontrivial_big"] = m.get("nontrivial_big", 0) + r["nontrivial_count"]
         m["counters"].update(r["counters"])
         m["monitors"].update(r["monitors"])
         m["discards"].update(r["discards"])
@@ -144,7 +147,7 @@ def check(prop, tier, seed):
     ndisc = sum(m["discards"].values())
     if ndisc > m["evaluations"] and not getattr(mod, "DISCARD_HEAVY_OK", False):
         inconclusive.append("more cases discarded (%d) than judged (%d)" % (ndisc, m["evaluations"]))
-    distinct = len(m["nontrivial"])
+    distinct = len(m["nontrivial"]) + m.get("nontrivial_big", 0)
     if m["evaluations"] < 1 or distinct < 2:
         inconclusive.append("too few non-trivial cases (%d evaluations, %d distinct non-trivial)"
                             % (m["evaluations"], distinct))
